@@ -132,6 +132,18 @@ Sw1Loop(ws, ss, i, cnt, acc) ==
          THEN Sw1Loop(ws, ss, i + 1, [cnt EXCEPT ![j] = @ + 1], Append(acc, ss[j].s[cnt[j] + 1]))
          ELSE Res(acc, ss[j].ok)
 
+\* Placep(list, repeats, offset) (sclang Ppatlace): one stream per item (rotated by offset), made once; every pass takes
+\* ONE value from each stream that still has one, in list order; it ends after `repeats` passes or with a pass in
+\* which no stream had a value (ended streams stay ended and are just skipped)
+RECURSIVE PlacepLoop(_, _, _, _, _)
+PlacepLoop(ss, j, reps, N, acc) ==
+    IF Len(acc) >= N THEN Res(Take(acc, N), TRUE)
+    ELSE IF j >= reps THEN Res(acc, TRUE)
+    ELSE LET live == {i \in 1..Len(ss) : j < Len(ss[i].s)}
+             pass == FlatSeq([i \in 1..Len(ss) |-> IF i \in live THEN <<ss[i].s[j + 1]>> ELSE <<>>]) IN
+         IF \E i \in 1..Len(ss) : i \notin live /\ ~ss[i].ok THEN Res(acc, FALSE)
+         ELSE IF live = {} THEN Res(acc, TRUE)
+         ELSE PlacepLoop(ss, j + 1, reps, N, acc \o pass)
 TupLoop(p, j, N, acc) ==
     IF Len(acc) >= N THEN Res(acc, TRUE)
     ELSE IF j >= p.r THEN Res(acc, TRUE)
@@ -291,6 +303,7 @@ DD(p, N) ==
     [] p.t = "switch1" ->                                    \* Pswitch1(list, which): one value of stream list[which]
          LET ws == S(p.a, N) ss == [j \in 1..Len(p.l) |-> S(p.l[j], N)] IN
          Sw1Loop(ws, ss, 1, [j \in 1..Len(p.l) |-> 0], <<>>)
+    [] p.t = "placep" -> LET rl == Rot(p.l, p.o) IN PlacepLoop([i \in 1..Len(rl) |-> S(rl[i], N)], 0, p.r, N, <<>>)
     [] p.t = "tuple" -> TupLoop(p, 0, N, <<>>)               \* Ptuple(list, repeats)
     [] p.t = "slide" ->                                      \* Pslide(list, len = n, step = st, start = k, wrap = wr, repeats = r)
          LET H == 2 * N + 2 ls == S(p.n, H) ss == S(p.st, H) IN SlideLoop(p, ls, ss, 0, p.k, N, <<>>, H)
